@@ -56,8 +56,14 @@ KEYS = ["a", "b", "c", "x", "k1", "foo", "d", "e"]
 
 
 class DocGen:
-    def __init__(self, rng, max_depth=3, sets=True, container_aliases=False, key_aliases=True):
+    def __init__(self, rng, max_depth=3, sets=True, container_aliases=False, key_aliases=True, map_anchors=False):
         self.rng = rng
+        # anchored MAPPINGS (&m1 {...}, scalar values only, never aliased as a value: every container object
+        # stays in the document once), keys spelled like those anchor names at other places, and mappings that
+        # merge them in (`<<: *m1`): the is_ymk_anchor test of Processor._delete_nodes
+        self.map_anchors = map_anchors
+        self.mpool = ["m1", "m2", "m3"] if map_anchors else []
+        self.mdone = []            # anchored mappings whose text is complete (usable by <<)
         self.anchors = []          # scalar anchors usable as aliases
         self.canchors = []         # container anchors
         self.n = 0
@@ -90,6 +96,13 @@ class DocGen:
             self.n += 1
             pre = "&c%d " % self.n
             name = "c%d" % self.n
+        if self.map_anchors and self.mpool and rng.random() < 0.22:
+            name = self.mpool.pop(0)
+            n = rng.choice([1, 2, 2, 3])
+            keys = rng.sample(KEYS, n)
+            txt = "&%s {%s}" % (name, ", ".join("%s: %s" % (k, self.scalar(allow_alias=False)) for k in keys))
+            self.mdone.append(name)
+            return txt
         if r < 0.72:
             out = pre + self.seq(depth)
         elif r < 0.95 or not self.sets or in_seq:
@@ -109,6 +122,11 @@ class DocGen:
         n = rng.choice([0, 1, 2, 2, 3, 4])
         keys = rng.sample(KEYS, n)
         items = []
+        if self.map_anchors:
+            if rng.random() < 0.35:
+                keys.insert(rng.randrange(len(keys) + 1), rng.choice(["m1", "m2", "m3"]))   # a key spelled like an anchor name
+            if self.mdone and rng.random() < 0.2:
+                items.append("<<: *%s" % rng.choice(self.mdone))
         for k in keys:
             if self.key_aliases and self.anchors and rng.random() < 0.04:
                 a = rng.choice(self.anchors)
@@ -271,6 +289,9 @@ class Shadow:
         self.root = data
         self.kids = {}      # id(container) -> ("M", [(k, v)...]) | ("S", [v...]) | ("T", [m...])
         self.keep = []
+        self.merged = {}    # id(mapping) -> True when its .merge list is non-empty (`<<:` user)
+        self.referred = {}  # id(mapping) -> True when other mappings merge it in
+        self.anchor_names = set()
         self._scan(data)
 
     def _scan(self, x):
@@ -280,7 +301,18 @@ class Shadow:
             items = list(x.items())
             self.kids[id(x)] = ("M", items)
             self.keep.append(x)
-            for _, v in items:
+            if getattr(x, "_yaml_merge", None):
+                self.merged[id(x)] = True
+            if getattr(x, "_ref", None):
+                self.referred[id(x)] = True
+            for k, v in items:
+                for y in (k, v):
+                    try:
+                        a = y.anchor.value if hasattr(y, "anchor") else None
+                    except Exception:  # noqa
+                        a = None
+                    if a is not None:
+                        self.anchor_names.add(a)
                 self._scan(v)
         elif isinstance(x, list):
             items = list(x)
